@@ -97,7 +97,7 @@ def classify(oc, data, cdc):
 
 def run(ctx):
     ctx.rule = ('all byte strings of length <= 2 (quick) / <= 3 (thorough) over 18 structural octets, and mutants (bit flip, insert, delete, '
-                'tag/length rewrite, truncation, duplication) of valid encodings; primitive contents over 14 significant octets and a sweep of all 256 first contents octets of BIT STRING/OID/REAL; constructed strings holding one or two of 21 odd segments; every single structural edit (member added in front/at the end, removed, repeated, swapped, node emptied, length form switched, at every constructed node) of definite, indefinite, CER and DER encodings of 13 container types; REAL character forms over 36 texts (incl. nan, inf, underscores, blanks); 7 constrained guiding types (alone, as SEQUENCE OF member, under a violated SIZE constraint) with violating contents of 1..5000 octets; BER, CER and DER decoders, one-shot and streaming; 17 guiding '
+                'tag/length rewrite, truncation, duplication) of valid encodings; primitive contents over 14 significant octets and a sweep of all 256 first contents octets of BIT STRING/OID/REAL; constructed strings holding one or two of 21 odd segments; every single structural edit (member added in front/at the end, removed, repeated, swapped, node emptied, length form switched, at every constructed node) of definite, indefinite, CER and DER encodings of 13 container types; REAL character forms over 36 texts (incl. nan, inf, underscores, blanks); 7 constrained guiding types (alone, as SEQUENCE OF member, under a violated SIZE constraint) with violating contents of 1..5000 octets; numbers of thousands of digits (tag numbers, OID arcs, INTEGERs) next to a surplus/missing/mistyped member, a truncated arc or a violated union/exclusion constraint; BER, CER and DER decoders, one-shot and streaming; 17 guiding '
                 'types and none; outcome must be a value object + remainder or a PyAsn1Error; reads bounded by 8*len+16; non-trivial = length >= 2')
     search_only = getattr(ctx, 'search_only', False)
     specs = [(sd, U.build_type(sd) if sd is not None else None, U.coq_ty(sd) if sd is not None else None) for sd in SPECS]
@@ -240,6 +240,44 @@ def run(ctx):
               ('ENUMERATED (0..10)', _u.Enumerated().subtype(subtypeSpec=_c.ValueRangeConstraint(0, 10)), 10)]
     def _hdr(tg, n):
         return bytes([tg, n]) if n < 128 else bytes([tg, 0x82, n >> 8, n & 255])
+    # numbers of thousands of digits wherever the input can put a number, next to something wrong: tag numbers, OID arcs
+    # before a truncated arc, an INTEGER before a surplus / missing / mistyped member (definite and indefinite), a violated
+    # union / nested constraint - the refusal must be the library's error however large the number is
+    from pyasn1.type import namedtype as _nt
+    huge_int = _hdr(2, 2048) + b'\x7f' + b'\x11' * 2047
+    big128 = b'\x81' * 2100 + b'\x01'
+    seq1 = _u.Sequence(componentType=_nt.NamedTypes(_nt.NamedType('a', _u.Integer())))
+    seq2 = _u.Sequence(componentType=_nt.NamedTypes(_nt.NamedType('a', _u.Integer()), _nt.OptionalNamedType('b', _u.OctetString())))
+    seq3 = _u.Sequence(componentType=_nt.NamedTypes(_nt.NamedType('a', _u.Integer()), _nt.NamedType('b', _u.Null())))
+    set1 = _u.Set(componentType=_nt.NamedTypes(_nt.NamedType('a', _u.Integer()), _nt.NamedType('b', _u.Null())))
+    uni = _u.Integer().subtype(subtypeSpec=_c.ConstraintsUnion(_c.ValueRangeConstraint(0, 10), _c.SingleValueConstraint(20)))
+    exc = _u.Integer().subtype(subtypeSpec=_c.ConstraintsIntersection(_c.ConstraintsUnion(_c.ValueRangeConstraint(0, 10), _c.ValueRangeConstraint(20, 30)), _c.ConstraintsExclusion(_c.SingleValueConstraint(5))))
+    def _wrap(tg, body, indef):
+        return bytes([tg, 0x80]) + body + b'\x00\x00' if indef else _hdr(tg, len(body)) + body
+    huge = []
+    for lead in (0x1f, 0x3f, 0x5f, 0x9f, 0xbf, 0xdf):
+        for tail in (b'\x01\x00', b'\x00', b'', b'\x80\x00\x00'):
+            for nm, sp in (('none', None), ('INTEGER', _u.Integer()), ('SEQUENCE {INTEGER}', seq1), ('ANY', _u.Any())):
+                huge.append(('tag number of 2100 base-128 digits, guided by ' + nm, sp, bytes([lead]) + big128 + tail))
+    for oidc in (b'\x2a' + big128 + b'\x81', b'\x2a' + big128, big128 + b'\x81', b'\x2a' + big128 + b'\x80\x01', b'\x81' * 2100):
+        for nm, sp in (('none', None), ('OBJECT IDENTIFIER', _u.ObjectIdentifier())):
+            huge.append(('OID with an arc of 2100 base-128 digits, guided by ' + nm, sp, _hdr(6, len(oidc)) + oidc))
+    for indef in (False, True):
+        for nm, sp in (('SEQUENCE {INTEGER}', seq1), ('SEQUENCE {INTEGER, OCTET STRING OPTIONAL}', seq2), ('SEQUENCE {INTEGER, NULL}', seq3), ('SET {INTEGER, NULL}', set1), ('none', None)):
+            for extra in (b'\x05\x00', b'\x02\x01\x05', b'', b'\x04\x01', huge_int, b'\x01\x01\xff'):
+                huge.append(('2048-octet INTEGER then %s in a %s container, guided by %s' % (extra[:3].hex() or 'nothing', 'indefinite' if indef else 'definite', nm),
+                             sp, _wrap(0x31 if nm.startswith('SET') else 0x30, huge_int + extra, indef)))
+    for nm, sp in (('INTEGER (0..10 | 20)', uni), ('INTEGER ((0..10 | 20..30) ^ ALL EXCEPT 5)', exc), ('SEQUENCE OF INTEGER (0..10 | 20)', _u.SequenceOf(componentType=uni))):
+        huge.append(('2048-octet INTEGER guided by ' + nm, sp, huge_int if sp is not None and isinstance(sp, _u.Integer) else _hdr(0x30, len(huge_int)) + huge_int))
+    for what, sp, data in huge:
+        for cdc in ('BER', 'DER', 'CER'):
+            d = I.run_decode(cdc, data, **({'asn1Spec': sp} if sp is not None else {}))
+            ctx.case(('huge-number', what, cdc), True)
+            ctx.stats['huge-number:' + ('accepted' if d[0] == 'ok' else 'library error' if I.is_library(d[1]) else 'crash')] += 1
+            if d[0] != 'ok' and not I.is_library(d[1]):
+                ctx.prop_fail('%s decoder let a non-library exception escape: %s (%s)' % (cdc, d[1], what),
+                              {'decoder': cdc, 'what': what, 'bytes': data.hex(), 'outcome': d[1:]},
+                              finding=classify(('crash', d[1], d[2] if len(d) > 2 else ''), data, cdc))
     for name, so, tg in cspecs:
         for n in (1, 2, 8, 100, 1000, 1800, 2048, 5000):
             for fill in (0x11, 0x61, 0x7f, 0xff):
